@@ -27,6 +27,7 @@ def run(ctx) -> None:
     ctx.guard("C10.aggregate", aggregate_records)
     ctx.guard("C10.mask-range", mask_range)
     ctx.guard("C10.tip-table", tip_table)
+    ctx.guard("C10.wash-table", wash_table)
     ctx.guard("C10.aggregate", aggregate_evo)
     ctx.guard("C10.aggregate", evo_member_conversion)
     ctx.guard("C10.any", any_rules)
@@ -421,6 +422,58 @@ def tip_table(ctx) -> None:
         ctx.rep.inconclusive(rule, c, f"the tip field could not be evaluated for tip={unknown} (construct outside the interpreter's fragment)", where=v.where())
     else:
         ctx.rep.holds(rule, c, f"the tip field / the rejection is as prescribed for all {n} tip arguments of the evaluation table (bounded argument)", where=v.where())
+
+
+def wash_table(ctx) -> None:
+    """The mask of B;Wash for a table of tip lists: evo_wash (with its validator and any new helpers) is interpreted by the
+    interpreter of rules/init_model.py - nothing of the repository is executed - with otherwise valid parameters; the first
+    number of the command must be the OR of the given tips in any order and with repeats, invalid tips must be refused."""
+    from . import init_model as IM
+
+    rule = "C10.wash-table"
+    f = ctx.prog.func("robotools.evotools.commands:evo_wash")
+    if f is None:
+        raise AnalysisInconclusive(rule, "evo_wash", "formatter not found")
+    members = _tip_table(ctx, rule)
+    enums = {"Tip": dict(members)}
+
+    def T(name):
+        return IM.EnumVal(members[name], "Tip", name)
+
+    base = dict(waste_location=(52, 2), cleaner_location=(52, 1), arm=0, waste_vol=3.0, waste_delay=500, cleaner_vol=4.0, cleaner_delay=500, airgap=10, airgap_speed=70, retract_speed=30, fastwash=1,
+                low_volume=0)
+    RAISE = "raises"
+    cases = [("[1]", [1], 1), ("[8]", [8], 128), ("[1, 2]", [1, 2], 3), ("[2, 1]", [2, 1], 3), ("[1, 1]", [1, 1], 1), ("[Tip.T3, 3]", [T("T3"), 3], 4), ("[Tip.T8, Tip.T1]", [T("T8"), T("T1")], 129),
+             ("[1, 2, 3, 4, 5, 6, 7, 8]", list(range(1, 9)), 255), ("[8, 7, 6, 5, 4, 3, 2, 1]", list(range(8, 0, -1)), 255), ("(4, 2)", (4, 2), 10),
+             ("[Tip.Any]", [T("Any")], RAISE), ("[1, Tip.Any]", [1, T("Any")], RAISE), ("[0]", [0], RAISE), ("[9]", [9], RAISE), ("[2.0]", [2.0], RAISE), ("None", None, RAISE)]
+    bad = unknown = None
+    n = 0
+    for text, tips, want in cases:
+        params = dict(base, tips=tips)
+        if not set(params) <= set(f.params):
+            unknown = unknown or "<signature changed>"
+            break
+        kind, val = IM.run_function(f, params, ctx.prog, enums)
+        n += 1
+        if kind == "raise":
+            got = RAISE
+        elif kind == "return" and isinstance(val, str) and val.startswith("B;Wash(") and val[7:].split(",")[0].lstrip("-").isdigit():
+            got = int(val[7:].split(",")[0])
+        else:
+            unknown = unknown or text
+            continue
+        if got != want and bad is None:
+            bad = (text, want, got)
+    ctx.rep.touch(f)
+    c = f"{f.qualname}/mask"
+    if bad is not None:
+        text, want, got = bad
+        ctx.rep.refuted(rule, c, f"for tips={text} evo_wash {'raises' if got == RAISE else f'emits the mask {got}'}; the property requires "
+                        f"{'a rejection (ValueError)' if want == RAISE else f'the mask {want} (OR of the given tips, in any order and with repeats)'}", where=f.where())
+    elif unknown is not None:
+        ctx.rep.inconclusive(rule, c, f"the wash command could not be evaluated for tips={unknown} (construct outside the interpreter's fragment)", where=f.where())
+    else:
+        ctx.rep.holds(rule, c, f"the wash mask / the rejection is as prescribed for all {n} tip lists of the evaluation table (bounded argument)", where=f.where())
 
 
 def mask_range(ctx) -> None:
